@@ -354,7 +354,7 @@ func (r *Run) checkListing(fn *Func, over string, rule string) {
 				}
 				if pe.Kind == EvCall {
 					if b, ok := pe.Callee.(*types.Builtin); ok && b.Name() == "append" && len(pe.Call.Args) == 2 {
-						if strings.HasPrefix(r.P.Canon(fn, pe.Call.Args[1]), "rangeval("+over+")") {
+						if strings.HasPrefix(r.P.Canon(pe.Fn, pe.Call.Args[1]), "rangeval("+over+")") {
 							appended = true
 						}
 					}
@@ -553,7 +553,7 @@ func ruleSubscriptions(r *Run) {
 							break
 						}
 						if pe.Kind == EvCall {
-							if b, ok := pe.Callee.(*types.Builtin); ok && b.Name() == "append" && r.P.Canon(fn, pe.Call.Args[1]) == "rangekey("+subs+")" {
+							if b, ok := pe.Callee.(*types.Builtin); ok && b.Name() == "append" && r.P.Canon(pe.Fn, pe.Call.Args[1]) == "rangekey("+subs+")" {
 								appended = true
 							}
 						}
@@ -587,7 +587,7 @@ func ruleIDGenerator(r *Run) {
 		ret := r.retCanon(fn, path)
 		incs := 0
 		for _, ev := range path.Events {
-			if ev.Kind == EvAssign && (ev.Tok == token.INC || ev.Tok == token.ADD_ASSIGN) && r.P.Canon(fn, ev.Lhs[0]) == "recv.currentID" {
+			if ev.Kind == EvAssign && (ev.Tok == token.INC || ev.Tok == token.ADD_ASSIGN) && r.P.Canon(ev.Fn, ev.Lhs[0]) == "recv.currentID" {
 				incs++
 			}
 		}
@@ -668,7 +668,7 @@ func ruleBroadcastShape(r *Run) {
 			for _, ev := range path.Events {
 				if ev.Kind == EvCall && ev.Callee == fromProto {
 					enc++
-					r.CheckT("C3", fn.Name+":encode-arg", r.P.Canon(fn, ev.Call.Args[0]) == "param:#1" && !ev.Loop, ev.Pos, path, "the message relayed is the one handed in, encoded once outside the loop")
+					r.CheckT("C3", fn.Name+":encode-arg", r.P.Canon(ev.Fn, ev.Call.Args[0]) == "param:#1" && !ev.Loop, ev.Pos, path, "the message relayed is the one handed in, encoded once outside the loop")
 				}
 			}
 			r.CheckT("C3", fn.Name+":encode-once", enc == 1, fn.Body.Pos(), path, "the message is encoded exactly once (%d)", enc)
@@ -703,8 +703,8 @@ func ruleBroadcastShape(r *Run) {
 					}
 					if r.isSendMsgCall(pe) {
 						sends++
-						okRecv := r.P.Canon(fn, pe.Recv) == "rangeval(recv.participants).Responder"
-						okMsg := strings.HasPrefix(r.P.Canon(fn, pe.Call.Args[0]), "call:websocket.MsgFromProto(param:#1)")
+						okRecv := r.P.Canon(pe.Fn, pe.Recv) == "rangeval(recv.participants).Responder"
+						okMsg := strings.HasPrefix(r.P.Canon(pe.Fn, pe.Call.Args[0]), "call:websocket.MsgFromProto(param:#1)")
 						r.CheckT("C3", fn.Name+":send", okRecv && okMsg, pe.Pos, path, "each member is sent the encoded message through its own responder")
 					}
 				}
@@ -738,7 +738,7 @@ func ruleBroadcastShape(r *Run) {
 			for _, ev := range path.Events {
 				if ev.Kind == EvCall && ev.Callee == fromProto {
 					enc++
-					r.CheckT("C3", fn.Name+":encode-arg", r.P.Canon(fn, ev.Call.Args[0]) == "param:#1" && !ev.Loop, ev.Pos, path, "the message relayed is the one handed in, encoded once outside the loop")
+					r.CheckT("C3", fn.Name+":encode-arg", r.P.Canon(ev.Fn, ev.Call.Args[0]) == "param:#1" && !ev.Loop, ev.Pos, path, "the message relayed is the one handed in, encoded once outside the loop")
 				}
 			}
 			r.CheckT("C3", fn.Name+":encode-once", enc == 1, fn.Body.Pos(), path, "the message is encoded exactly once (%d)", enc)
@@ -795,9 +795,9 @@ func ruleBroadcastShape(r *Run) {
 					}
 					if r.isSendMsgCall(pe) {
 						sends++
-						okRecv := r.P.Canon(fn, pe.Recv) == member+".Responder"
-						okMsg := strings.HasPrefix(r.P.Canon(fn, pe.Call.Args[0]), "call:websocket.MsgFromProto(param:#1)")
-						r.CheckT("C3", fn.Name+":send", okRecv && okMsg, pe.Pos, path, "each named member is sent the encoded message through its own responder (to %s)", r.P.Canon(fn, pe.Recv))
+						okRecv := r.P.Canon(pe.Fn, pe.Recv) == member+".Responder"
+						okMsg := strings.HasPrefix(r.P.Canon(pe.Fn, pe.Call.Args[0]), "call:websocket.MsgFromProto(param:#1)")
+						r.CheckT("C3", fn.Name+":send", okRecv && okMsg, pe.Pos, path, "each named member is sent the encoded message through its own responder (to %s)", r.P.Canon(pe.Fn, pe.Recv))
 					}
 				}
 				switch {
@@ -868,7 +868,7 @@ func ruleBroadcastShape(r *Run) {
 						}
 					}
 					if pe.Kind == EvCall {
-						if b, ok := pe.Callee.(*types.Builtin); ok && b.Name() == "append" && r.P.Canon(fn, pe.Call.Args[1]) == "recv.participants[rangeval(param:#0)]" {
+						if b, ok := pe.Callee.(*types.Builtin); ok && b.Name() == "append" && r.P.Canon(pe.Fn, pe.Call.Args[1]) == "recv.participants[rangeval(param:#0)]" {
 							app = true
 						}
 					}
@@ -1019,7 +1019,7 @@ func ruleRelaySync(r *Run) {
 			for _, ev := range path.Events {
 				if ev.Kind == EvCall && ev.Callee == fld {
 					calls++
-					argOK = len(ev.Call.Args) == 1 && r.P.Canon(fn, ev.Call.Args[0]) == "param:#0"
+					argOK = len(ev.Call.Args) == 1 && r.P.Canon(ev.Fn, ev.Call.Args[0]) == "param:#0"
 				}
 			}
 			r.CheckT("C6", fn.Name+":forwards", calls == 1 && argOK, fn.Body.Pos(), &path, "the responder forwards each message exactly once")
@@ -1101,76 +1101,81 @@ func ruleIDSources(r *Run) {
 	// where the ids go
 	m := r.M()
 	n := 0
-	var scan []*Func
-	seenFn := map[*Func]bool{}
+	// Every literal of a model object built on behalf of a handler — in the handler itself or in
+	// glue it calls (looked into, parameters bound to the handler's arguments) — is examined in the
+	// context of each path it can be reached on.
+	done := map[string]bool{}
+	seenHandler := map[*Func]bool{}
 	for _, hi := range m.Handlers {
-		if !seenFn[hi.Fn] {
-			seenFn[hi.Fn] = true
-			scan = append(scan, hi.Fn)
-		}
-	}
-	// unexported helpers of the handlers' packages that only act on behalf of a handler
-	var hnames []string
-	for _, hi := range m.Handlers {
-		hnames = append(hnames, hi.Fn.Name)
-	}
-	for _, f2 := range r.P.All {
-		if seenFn[f2] || f2.Obj == nil || f2.Obj.Exported() {
+		if seenHandler[hi.Fn] {
 			continue
 		}
-		if f2.Pkg.PkgPath != pkgWS && !strings.HasPrefix(f2.Pkg.PkgPath, pkgModules+"/") {
-			continue
-		}
-		if r.onlyFrom(f2, hnames...) {
-			seenFn[f2] = true
-			scan = append(scan, f2)
-		}
-	}
-	for _, fn := range scan {
-		info := fn.Info()
-		ast.Inspect(fn.Body, func(nd ast.Node) bool {
-			cl, ok := nd.(*ast.CompositeLit)
-			if !ok {
-				return true
-			}
-			pk, tn := litTypeName(info, cl)
-			if pk != "models" {
-				return true
-			}
-			holder := fn
-			switch tn {
-			case "Participant":
-				n++
-				c := r.P.Canon(holder, litField(cl, "ID"))
-				okSrc := false
-				if call, isCall := ast.Unparen(litField(cl, "ID")).(*ast.CallExpr); isCall {
-					if f, _ := calleeObj(info, call).(*types.Func); f != nil && funcName(f) == "models.(*Session).NewParticipantID" {
-						okSrc = r.isJoinLocalSession(holder, recvExpr(call))
-					}
+		seenHandler[hi.Fn] = true
+		paths := r.Paths(hi.Fn)
+		for pi := range paths {
+			path := &paths[pi]
+			r.at(path)
+			insts := []*Func{hi.Fn}
+			seenInst := map[*Func]bool{hi.Fn: true}
+			for _, ev := range path.Events {
+				if ev.Fn != nil && !seenInst[ev.Fn] && ev.Fn.Lit == nil {
+					seenInst[ev.Fn] = true
+					insts = append(insts, ev.Fn)
 				}
-				r.Check("D5", fn.Name+":participant-id", okSrc, cl.Pos(), "a new participant gets the next participant id of the session it joins (%s)", c)
-			case "Entity":
-				n++
-				c := r.P.Canon(holder, litField(cl, "ID"))
-				r.Check("D5", fn.Name+":entity-id", c == "recv.currentSession.call:Session.NewEntityID()", cl.Pos(), "a new entity gets the next entity id of the caller's session (%s)", c)
-				o := r.P.Canon(holder, litField(cl, "ParticipantID"))
-				r.Check("D2", fn.Name+":entity-owner", o == "recv.currentParticipant.ID", cl.Pos(), "a new entity is owned by the participant that asked for it (%s)", o)
 			}
-			return true
-		})
-		// NewSession(h.Sessions.NewID(), ...)
-		ast.Inspect(fn.Body, func(nd ast.Node) bool {
-			call, ok := nd.(*ast.CallExpr)
-			if !ok {
-				return true
+			for _, inst := range insts {
+				info := inst.Info()
+				holder := inst
+				where := inst.origOrSelf().Name
+				ast.Inspect(inst.Body, func(nd ast.Node) bool {
+					switch v := nd.(type) {
+					case *ast.CompositeLit:
+						pk, tn := litTypeName(info, v)
+						if pk != "models" {
+							return true
+						}
+						switch tn {
+						case "Participant":
+							c := r.P.Canon(holder, litField(v, "ID"))
+							okSrc := false
+							if call, isCall := ast.Unparen(litField(v, "ID")).(*ast.CallExpr); isCall {
+								if f, _ := calleeObj(info, call).(*types.Func); f != nil && funcName(f) == "models.(*Session).NewParticipantID" {
+									okSrc = r.isJoinLocalSession(holder, recvExpr(call))
+								}
+							}
+							key := fmt.Sprintf("P|%s|%d|%s|%v", where, v.Pos(), c, okSrc)
+							if !done[key] {
+								done[key] = true
+								n++
+								r.CheckT("D5", where+":participant-id", okSrc, v.Pos(), path, "a new participant gets the next participant id of the session it joins (%s)", c)
+							}
+						case "Entity":
+							c := r.P.Canon(holder, litField(v, "ID"))
+							o := r.P.Canon(holder, litField(v, "ParticipantID"))
+							key := fmt.Sprintf("E|%s|%d|%s|%s", where, v.Pos(), c, o)
+							if !done[key] {
+								done[key] = true
+								n++
+								r.CheckT("D5", where+":entity-id", c == "recv.currentSession.call:Session.NewEntityID()", v.Pos(), path, "a new entity gets the next entity id of the caller's session (%s)", c)
+								r.CheckT("D2", where+":entity-owner", o == "recv.currentParticipant.ID", v.Pos(), path, "a new entity is owned by the participant that asked for it (%s)", o)
+							}
+						}
+					case *ast.CallExpr:
+						// NewSession(h.Sessions.NewID(), ...)
+						if f, _ := calleeObj(info, v).(*types.Func); f != nil && funcName(f) == "models.NewSession" && len(v.Args) > 0 {
+							c := r.P.Canon(holder, v.Args[0])
+							key := fmt.Sprintf("S|%s|%d|%s", where, v.Pos(), c)
+							if !done[key] {
+								done[key] = true
+								n++
+								r.CheckT("D5", where+":session-id", c == "recv.Sessions.call:SessionStore.NewID()", v.Pos(), path, "a new session gets the next session id of the registry (%s)", c)
+							}
+						}
+					}
+					return true
+				})
 			}
-			if f, _ := calleeObj(info, call).(*types.Func); f != nil && funcName(f) == "models.NewSession" {
-				n++
-				c := r.P.Canon(fn, call.Args[0])
-				r.Check("D5", fn.Name+":session-id", c == "recv.Sessions.call:SessionStore.NewID()", call.Pos(), "a new session gets the next session id of the registry (%s)", c)
-			}
-			return true
-		})
+		}
 	}
 	r.Floor("D5", "id-carrying constructions in handlers", n, 3)
 	// D2: owner and identity fields are never assigned after construction
@@ -1204,12 +1209,12 @@ func ruleIDSources(r *Run) {
 	}
 	// Participant.AddEntity is only given the entity just created by the same handler
 	addE := r.P.LookupFunc(pkgModels, "Participant", "AddEntity")
-	for _, c := range r.callersOf(addE) {
+	for _, c := range r.rootsOf(r.callersOf(addE)) {
 		for _, path := range r.Paths(c) {
 			r.at(&path)
 			for _, ev := range path.Events {
 				if ev.Kind == EvCall && ev.Callee == addE {
-					rc, ac := r.P.Canon(c, ev.Recv), r.P.Canon(c, ev.Call.Args[0])
+					rc, ac := r.P.Canon(ev.Fn, ev.Recv), r.P.Canon(ev.Fn, ev.Call.Args[0])
 					r.CheckT("D2", c.Name+":own-entity-bookkeeping", rc == "recv.currentParticipant" && strings.HasPrefix(ac, "&lit:models.Entity@"), ev.Pos, &path,
 						"only the entity a participant has just created is entered into its own entity list (receiver %s, entity %s)", rc, ac)
 				}
@@ -1287,8 +1292,8 @@ func ruleRegistry(r *Run) {
 						all = false
 					}
 				}
-				all = all && r.P.Canon(fn, path.Events[iR].Call.Args[0]) == "param:#1.ID" && r.P.Canon(fn, path.Events[iR].Recv) == "recv.ids" &&
-					r.P.Canon(fn, path.Events[iC].Recv) == "param:#1"
+				all = all && r.P.Canon(path.Events[iR].Fn, path.Events[iR].Call.Args[0]) == "param:#1.ID" && r.P.Canon(path.Events[iR].Fn, path.Events[iR].Recv) == "recv.ids" &&
+					r.P.Canon(path.Events[iC].Fn, path.Events[iC].Recv) == "param:#1"
 			}
 			r.CheckT("E7", fn.Name+":one-critical-section", all, fn.Body.Pos(), &path,
 				"unregistering, stopping the frame worker, releasing the session id and lowering the gauge happen in one critical section, for the session handed in")
@@ -1393,7 +1398,7 @@ func ruleFramePair(r *Run) {
 			}
 			s, stop := 0, 0
 			for _, ev := range path.Events {
-				if ev.Kind == EvChanOp && ev.Send && r.P.Canon(fn, ev.Chan) == "recv.closeFrameChan" {
+				if ev.Kind == EvChanOp && ev.Send && r.P.Canon(ev.Fn, ev.Chan) == "recv.closeFrameChan" {
 					s++
 					r.CheckT("E6", fn.Name+":signal-not-droppable", !ev.NonBlocking, ev.Pos, &path, "the stop signal is sent with a plain send (a select/default would drop it while the worker is dispatching a frame, and the worker of an ended session would run forever)")
 				}
@@ -1477,7 +1482,7 @@ func ruleFramePair(r *Run) {
 			for i, ev := range path.Events {
 				if ev.Kind == EvGo && ev.Callee == sdf {
 					goIdx = i
-					r.CheckT("E6", jf.Name+":worker-for-created-session", iAdd >= 0 && iAdd < i && r.P.Canon(jf, ev.Recv) == r.P.Canon(jf, path.Events[max0(iAdd)].Call.Args[1]), ev.Pos, &path,
+					r.CheckT("E6", jf.Name+":worker-for-created-session", iAdd >= 0 && iAdd < i && r.P.Canon(ev.Fn, ev.Recv) == r.P.Canon(path.Events[max0(iAdd)].Fn, path.Events[max0(iAdd)].Call.Args[1]), ev.Pos, &path,
 						"a frame worker is started for exactly the session that was just created and registered")
 				}
 			}
@@ -1501,11 +1506,11 @@ func ruleFramePair(r *Run) {
 			okReg := iHF >= 0
 			if okReg {
 				ev := path.Events[iHF]
-				okReg = r.P.Canon(jf, ev.Call.Args[0]) == "param:#1" && r.isJoinLocalSession(jf, ev.Recv)
+				okReg = r.P.Canon(ev.Fn, ev.Call.Args[0]) == "param:#1" && r.isJoinLocalSession(ev.Fn, ev.Recv)
 				stored := false
 				for _, pe := range path.Events[iHF:] {
-					if pe.Kind == EvAssign && len(pe.Lhs) == 1 && r.P.Canon(jf, pe.Lhs[0]) == "recv.stopFrameHandling" {
-						stored = strings.Contains(r.P.Canon(jf, pe.Rhs[0]), "call:Session.HandleFrame(param:#1)")
+					if pe.Kind == EvAssign && len(pe.Lhs) == 1 && r.P.Canon(pe.Fn, pe.Lhs[0]) == "recv.stopFrameHandling" {
+						stored = strings.Contains(r.P.Canon(pe.Fn, pe.Rhs[0]), "call:Session.HandleFrame(param:#1)")
 						break
 					}
 				}
@@ -1542,4 +1547,156 @@ func ruleFramePair(r *Run) {
 			}
 		}
 	}
+}
+
+// ruleNoGlobalSessionData (J5): nothing a connection sends can travel between sessions through a
+// package-level variable. Every package-level variable of the repository (test scaffolding aside)
+// (a) has a type that cannot hold session data — no model type, module state, message or responder is
+// reachable from it through fields, pointers, elements — and (b) is assigned only by its declaration or
+// an init function.
+func ruleNoGlobalSessionData(r *Run) {
+	if r.broken() {
+		return
+	}
+	carrier := func(t types.Type) string {
+		seen := map[types.Type]bool{}
+		var visit func(t types.Type, depth int) string
+		visit = func(t types.Type, depth int) string {
+			if t == nil || depth > 6 || seen[t] {
+				return ""
+			}
+			seen[t] = true
+			if n, ok := t.(*types.Named); ok {
+				if n.Obj().Pkg() != nil {
+					pp := n.Obj().Pkg().Path()
+					switch {
+					case pp == pkgModels, strings.HasPrefix(pp, repoMod+"/modules"):
+						return shortPkg(pp) + "." + n.Obj().Name()
+					case pp == pkgHCWS && (n.Obj().Name() == "Msg" || n.Obj().Name() == "ResponseSender" || n.Obj().Name() == "ProtoMsg"):
+						return "websocket." + n.Obj().Name()
+					case strings.Contains(pp, "/messages/"):
+						return shortPkg(pp) + "." + n.Obj().Name()
+					case !isRepoPkg(n.Obj().Pkg()):
+						return "" // foreign types (metrics vectors, regexps, …) are not followed
+					}
+				}
+				return visit(n.Underlying(), depth+1)
+			}
+			switch u := t.(type) {
+			case *types.Pointer:
+				return visit(u.Elem(), depth+1)
+			case *types.Slice:
+				return visit(u.Elem(), depth+1)
+			case *types.Array:
+				return visit(u.Elem(), depth+1)
+			case *types.Chan:
+				return visit(u.Elem(), depth+1)
+			case *types.Map:
+				if c := visit(u.Key(), depth+1); c != "" {
+					return c
+				}
+				return visit(u.Elem(), depth+1)
+			case *types.Struct:
+				for i := 0; i < u.NumFields(); i++ {
+					if c := visit(u.Field(i).Type(), depth+1); c != "" {
+						return c
+					}
+				}
+			case *types.Interface:
+				if u.NumMethods() == 0 {
+					return "interface{} (can hold anything)"
+				}
+			}
+			return ""
+		}
+		return visit(t, 0)
+	}
+	// assignments to package-level variables outside init
+	written := map[*types.Var]token.Pos{}
+	for _, fn := range r.P.All {
+		if fn.Obj != nil && fn.Obj.Name() == "init" && fn.Recv == nil {
+			continue
+		}
+		if strings.HasSuffix(fn.Pkg.Fset.Position(fn.Body.Pos()).Filename, "websocket/testing.go") {
+			continue
+		}
+		info := fn.Info()
+		note := func(x ast.Expr) {
+			for {
+				switch v := ast.Unparen(x).(type) {
+				case *ast.SelectorExpr:
+					if id, ok := ast.Unparen(v.X).(*ast.Ident); ok {
+						if _, isPkg := info.Uses[id].(*types.PkgName); isPkg {
+							if gv, ok := info.Uses[v.Sel].(*types.Var); ok && gv.Parent() == gv.Pkg().Scope() && isRepoPkg(gv.Pkg()) {
+								written[gv] = x.Pos()
+							}
+							return
+						}
+					}
+					x = v.X
+				case *ast.IndexExpr:
+					x = v.X
+				case *ast.StarExpr:
+					x = v.X
+				case *ast.Ident:
+					if gv, ok := info.Uses[v].(*types.Var); ok && gv.Pkg() != nil && gv.Parent() == gv.Pkg().Scope() && isRepoPkg(gv.Pkg()) {
+						written[gv] = x.Pos()
+					}
+					return
+				default:
+					return
+				}
+			}
+		}
+		ast.Inspect(fn.Body, func(n ast.Node) bool {
+			switch st := n.(type) {
+			case *ast.AssignStmt:
+				if st.Tok != token.DEFINE {
+					for _, l := range st.Lhs {
+						note(l)
+					}
+				}
+			case *ast.IncDecStmt:
+				note(st.X)
+			case *ast.UnaryExpr:
+				if st.Op == token.AND {
+					// address taken: may be written through the pointer
+					if id, ok := ast.Unparen(st.X).(*ast.Ident); ok {
+						if gv, ok := info.Uses[id].(*types.Var); ok && gv.Pkg() != nil && gv.Parent() == gv.Pkg().Scope() && isRepoPkg(gv.Pkg()) && carrier(gv.Type()) != "" {
+							written[gv] = st.Pos()
+						}
+					}
+				}
+			}
+			return true
+		})
+	}
+	n := 0
+	for _, pk := range r.P.Pkgs {
+		if pk.Types == nil || !isRepoPkg(pk.Types) {
+			continue
+		}
+		scope := pk.Types.Scope()
+		for _, name := range scope.Names() {
+			gv, ok := scope.Lookup(name).(*types.Var)
+			if !ok {
+				continue
+			}
+			pos := pk.Fset.Position(gv.Pos())
+			if strings.HasSuffix(pos.Filename, "_test.go") || strings.HasSuffix(pos.Filename, "websocket/testing.go") {
+				continue
+			}
+			n++
+			site := shortPkg(pk.Types.Path()) + "." + name
+			c := carrier(gv.Type())
+			r.Check("J5", site+":type", c == "", gv.Pos(), "package-level variable %s can hold session data (%s reachable from its type %s): state shared by every session of the process", site, c, gv.Type())
+			wpos, w := written[gv]
+			if pk.Types.Name() == "main" {
+				continue // flags and configuration of the process, set once at start-up in main
+			}
+			_ = wpos
+			r.Check("J5", site+":assigned-once", !w, gv.Pos(), "package-level variable %s is assigned outside its declaration / init: it is state shared by every session of the process", site)
+		}
+	}
+	r.Floor("J5", "package-level variables of the repository", n, 10)
 }
